@@ -362,6 +362,16 @@ func (wr *journalWriter) readJournalIndex(ctx context.Context, canWrite bool) er
 				return fmt.Errorf("invalid index record hash (%s != %s)", h.String(), m.latestHash.String())
 			}
 
+			// The batch checksum only covers the lookup addresses. Reject lookups whose journal
+			// range falls outside of the region this batch indexes, rather than trusting a
+			// corrupted offset or length (which would later read out of bounds).
+			for _, l := range batch {
+				end := l.r.Offset + uint64(l.r.Length)
+				if l.r.Offset < uint64(m.batchStart) || end < l.r.Offset || end > uint64(m.batchEnd) {
+					return fmt.Errorf("invalid index lookup range [%d, %d) outside of indexed region [%d, %d)", l.r.Offset, end, m.batchStart, m.batchEnd)
+				}
+			}
+
 			select {
 			case <-ectx.Done():
 				return ectx.Err()
